@@ -35,6 +35,22 @@ pub fn stream_bytes(stream: usize, offset: usize, len: usize, kind: &str) -> Vec
             v.push(base + (pos % 23) as u8);
         }
     }
+    if kind == "cut" && len > 0 {
+        // valid text that ends inside a multi-byte character (an incomplete trailing sequence)
+        let tails: [&[u8]; 3] = [&[0xC3], &[0xE2, 0x82], &[0xF0, 0x9F, 0x98]];
+        let t = tails[offset % 3];
+        let n = t.len().min(len);
+        let at = len - n;
+        v.truncate(at);
+        // keep what precedes the tail valid: drop a split "ö" if the cut fell inside one
+        while std::str::from_utf8(&v).is_err() {
+            v.pop();
+        }
+        while v.len() < at {
+            v.push(base);
+        }
+        v.extend_from_slice(&t[..n]);
+    }
     if let Some(k) = kind.strip_prefix("bad@")
         && len > 0
     {
@@ -486,23 +502,26 @@ fn gen_scenario(r: &mut Rng, tier: Tier) -> Value {
     };
     let mut script = vec![];
     let nops = 1 + r.below(if tier == Tier::Thorough { 6 } else { 5 });
-    let sleeps = [0u64, 1, 5, 9, 10, 11, 19, 20, 21, 50, 100];
+    // whole seconds and more too: simulated time is free, and units/wrap-arounds live there
+    let sleeps = [0u64, 1, 5, 9, 10, 11, 19, 20, 21, 50, 100, 999, 1000, 1001, 1600, 61_000];
     for _ in 0..nops {
         match r.below(14) {
             0..=4 => {
                 let n = sz(r);
-                let kind = match r.below(14) {
+                let kind = match r.below(16) {
                     0 => format!("bad@{}", r.below(n.max(1))),
                     1 | 2 => "multi".into(),
+                    3 => "cut".into(),
                     _ => "ascii".to_string(),
                 };
                 script.push(json!({"out": {"len": n, "kind": kind, "chunk": r.pick(&[1u64, 3, 64, 4096, 100_000])}}));
             }
             5..=7 => {
                 let n = sz(r);
-                let kind = match r.below(14) {
+                let kind = match r.below(16) {
                     0 => format!("bad@{}", r.below(n.max(1))),
                     1 | 2 => "multi".into(),
+                    3 => "cut".into(),
                     _ => "ascii".to_string(),
                 };
                 script.push(json!({"err": {"len": n, "kind": kind, "chunk": r.pick(&[1u64, 3, 64, 4096, 100_000])}}));
@@ -540,9 +559,12 @@ fn gen_scenario(r: &mut Rng, tier: Tier) -> Value {
     if r.chance(25) {
         faults["jitter"] = json!([r.pick(&[5u64, 20, 60]), r.pick(&[1u64, 3, 12])]);
     }
+    let timeout = r.pick(&[1u64, 5, 10, 20, 30, 50, 100, 200, 200, 1000, 1001, 1500, 60_000]);
+    // a minute of 1 ms polls is 60 000 loop iterations: keep the poll coarse there
+    let poll = if timeout >= 60_000 { 10 } else { r.pick(&[1u64, 10]) };
     json!({
         "out_pol": r.pick(&[0u64, 1, 2, 2, 2]), "err_pol": r.pick(&[0u64, 1, 2, 2]), "stdin_pol": stdin_pol,
-        "cap": cap, "timeout": r.pick(&[1u64, 5, 10, 20, 30, 50, 100, 200]), "poll": r.pick(&[1u64, 10]),
+        "cap": cap, "timeout": timeout, "poll": poll,
         "pipe_cap": pipe_cap, "epipe_die": r.chance(50), "stdin_len": stdin_len, "script": script,
         "faults": faults, "jitter_seed": r.next() >> 1,
         "mode": if r.below(8) == 0 { "direct" } else { "script" },
